@@ -38,7 +38,7 @@ tvars == <<tid, l, ms, fail, info>>
 SeqToSet(s) == {s[i] : i \in 1..Len(s)}
 NewObj(o) == [cfg |-> [S |-> o.S, M |-> o.mode, vars |-> SeqToSet(o.vars)],
               phase |-> "new", phi |-> Null, inst |-> Null,
-              fed |-> [v \in SeqToSet(o.vars) |-> <<>>], emitted |-> <<>>, nupd |-> 0, mu |-> 0, last |-> <<>>,
+              fed |-> [v \in SeqToSet(o.vars) |-> <<>>], emitted |-> <<>>, nupd |-> 0, mu |-> 0, last |-> <<>>, rets |-> <<>>, lastw |-> <<>>,
               dead |-> FALSE, gets |-> <<>>]
 InitMs(c) == [i \in 1..Len(c.objs) |-> NewObj(c.objs[i])]
 NoCase == [objs |-> <<>>, events |-> <<>>, rels |-> <<>>, tid |-> 0, skip |-> <<>>]
@@ -132,6 +132,7 @@ ApplyUpdate(m, e, step) ==
   ELSE
     LET m1 == [m EXCEPT !.phase = "online", !.fed = ConcatW(m.fed, e.w, m.cfg.vars),
                         !.emitted = m.emitted \o e.ret, !.nupd = m.nupd + 1, !.last = e.ret,
+                        !.rets = Append(m.rets, e.ret), !.lastw = e.w,
                         !.mu = IF m.nupd + 1 > m.mu THEN m.nupd + 1 ELSE m.mu]   \* mu: most updates in one segment
         f0 == ExcClass(TRUE, e, "update.exc", step)
         f1 == IF f0 = Ok /\ ~Monotone(m1.emitted) THEN F("update.monotone", step, "non-decreasing time-stamps", m1.emitted) ELSE Ok
@@ -165,7 +166,7 @@ ApplyDtEvaluate(m, e, step) ==
 \* the input domain (offline; online: on the region it covers); for an input variable it denotes the supplied signal
 ApplyGet(m, e, obj, step) ==
   LET f0 == ExcClass(TRUE, e, "get.exc", step)
-      m1 == [m EXCEPT !.gets = Append(m.gets, [n |-> e.n, v |-> e.ret])] IN
+      m1 == [m EXCEPT !.gets = Append(m.gets, [n |-> e.n, v |-> e.ret, k |-> Len(m.rets)])] IN
   IF f0 # Ok \/ ~HasData(m) \/ e.ret = <<>> THEN R(m1, f0, 0)
   ELSE
     LET d0 == D0(m) d1 == D1(m) n == d1 - d0 + 1
@@ -174,7 +175,11 @@ ApplyGet(m, e, obj, step) ==
         lo2 == IF m.phase = "offline" THEN 2 * d0 ELSE e.ret[1][1]
         hi2 == IF m.phase = "offline" THEN 2 * d1 ELSE e.ret[Len(e.ret)][1]
         k == Mismatch(e.ret, ex, d0, n, 0, lo2, hi2) IN
-    IF ~Monotone(e.ret) THEN R(m1, F("get.monotone", step, "non-decreasing", e.ret), 0)
+    \* an input variable: exactly the data supplied (the batch of the last update / the evaluated list)
+    IF isvar /\ m.phase = "online" /\ e.n \in DOMAIN m.lastw
+          /\ e.ret # [i \in 1..Len(m.lastw[e.n]) |-> <<2 * m.lastw[e.n][i][1], m.lastw[e.n][i][2]>>]
+       THEN R(m1, F("get.data", step, m.lastw[e.n], e.ret), 0)
+    ELSE IF ~Monotone(e.ret) THEN R(m1, F("get.monotone", step, "non-decreasing", e.ret), 0)
     ELSE IF k # 0 THEN R(m1, F("get.value", step, <<k, d0, ex>>, e.ret), 0)
     ELSE R(m1, Ok, 0)
 
@@ -206,6 +211,10 @@ RelFail(c, r) ==
              b == ms[r.y].emitted
              both == {t \in Covered(a) \cup Covered(b) : Within(a, t) /\ Within(b, t)} IN
          IF gs # <<>> /\ \A t2 \in both : StepAt(a, t2) = StepAt(b, t2) THEN Ok ELSE F("rel.get_fn", 0, b, a)
+    [] r.rel = "get_seq" ->        \* C12 online: the list get_value(n) returns after the k-th update = the k-th list the stand-alone y returned
+         LET gs == SelectSeq(ms[r.x].gets, LAMBDA g : g.n = r.n) IN
+         IF \A i \in 1..Len(gs) : gs[i].k >= 1 /\ gs[i].k <= Len(ms[r.y].rets) /\ gs[i].v = ms[r.y].rets[gs[i].k] THEN Ok
+         ELSE F("rel.get_seq", 0, ms[r.y].rets, gs)
     [] r.rel = "sampled_eq" ->     \* C19: dense result x sampled at the discrete instants = discrete result y, while k + h < N
          LET a == ms[r.x].emitted b == ms[r.y].emitted N == Len(b) IN
          IF \A k \in 1..N : (k + r.h <= N) => StepAt(a, b[k][1]) = b[k][2] THEN Ok
